@@ -71,7 +71,33 @@ class Instance:
     origin: str = ""
 
     def get(self, attr: str) -> ValSet:
-        return self.attrs.get(self.cls.mangle(attr), self.attrs.get(attr, U))
+        m = self.cls.mangle(attr)
+        if m in self.attrs:
+            return self.attrs[m]
+        if attr in self.attrs:
+            return self.attrs[attr]
+        # the attribute may have been renamed: the option is still the constructor parameter of that name, stored by
+        # `self.<x> = <parameter>` in __init__
+        for a in self._stored_param(attr):
+            if a in self.attrs:
+                return self.attrs[a]
+        return U
+
+    def _stored_param(self, pname: str):
+        import ast as _ast
+
+        out = []
+        cls = self.cls
+        init = cls.methods.get("__init__") if hasattr(cls, "methods") else None
+        if init is None or pname not in init.params + init.kwonly:
+            return out
+        for n in _ast.walk(init.node):
+            if isinstance(n, _ast.Assign) and isinstance(n.value, _ast.Name) and n.value.id == pname:
+                for t in n.targets:
+                    if isinstance(t, _ast.Attribute) and isinstance(t.value, _ast.Name) and t.value.id == init.params[0]:
+                        out.append(cls.mangle(t.attr))
+                        out.append(t.attr)
+        return out
 
 
 @dataclass
